@@ -18,9 +18,32 @@ class NullFile:
         return None
 
 
+STDOUT_WRITES = []  # what the current path sent to standard output other than through its output stream
+
+
+class StdoutFile:
+    def write(self, x, *a):
+        STDOUT_WRITES.append(repr(x)[:80])
+        return None
+
+    def flush(self):
+        return None
+
+    @property
+    def buffer(self):
+        return self
+
+
+def i_print(I, *a, file=None, **kw):
+    """print(): text for sys.stdout unless file= names another stream"""
+    if file is None or isinstance(file, StdoutFile):
+        STDOUT_WRITES.append("print(" + ", ".join(repr(x)[:40] for x in a) + ")")
+    return None
+
+
 class FakeSys:
     stderr = NullFile()
-    stdout = NullFile()
+    stdout = StdoutFile()
     version_info = _sys.version_info
     argv = ["tool"]
 
@@ -63,6 +86,7 @@ def load(modname):
 
 
 CASE_CPU_BUDGET_S = 240
+PENDING_GAPS = []  # budget overruns of the current case: the paths completed so far are still checked, the rest is a gap
 
 
 def explore(make_run, premises, unwind=8, max_paths=600):
@@ -72,10 +96,14 @@ def explore(make_run, premises, unwind=8, max_paths=600):
     t0 = time.process_time()
     while stack:
         if time.process_time() - t0 > CASE_CPU_BUDGET_S:
-            raise HarnessGap(f"case exceeds its CPU budget of {CASE_CPU_BUDGET_S} s after {len(results)} paths")
+            if not results:
+                raise HarnessGap(f"case exceeds its CPU budget of {CASE_CPU_BUDGET_S} s before its first path completes")
+            PENDING_GAPS.append(f"case exceeds its CPU budget of {CASE_CPU_BUDGET_S} s after {len(results)} paths ({len(stack)} open branches not explored)")
+            break
         dec = stack.pop()
         path = Path(dec, premises)
         run, sink, extra = make_run()
+        del STDOUT_WRITES[:]
         try:
             val = run(path)
             status, detail = "ok", ""
@@ -83,7 +111,7 @@ def explore(make_run, premises, unwind=8, max_paths=600):
             val, status, detail = None, "fail", f.kind + ": " + f.detail
         except Unwind as u:
             val, status, detail = None, "unwind", str(u)
-        results.append({"pc": list(path.pc), "status": status, "detail": detail, "value": val, "out": sink.flat() if sink is not None else None, "extra": extra, "decisions": len(path.dec)})
+        results.append({"pc": list(path.pc), "status": status, "detail": detail, "value": val, "out": sink.flat() if sink is not None else None, "extra": extra, "decisions": len(path.dec), "stdout": list(STDOUT_WRITES)})
         stack.extend(path.siblings(len(dec)))
         if len(results) > max_paths:
             raise HarnessGap("path explosion")
@@ -97,6 +125,7 @@ def run_function(mod, fname, build_args, premises, unwind=8, extra_intrinsics=No
         args, sink, registry, extra = build_args()
         intr = dict(pysym.BASE_INTRINSICS)
         intr["sys"] = FakeSys
+        intr["print"] = Intrinsic(i_print)
         fos = FakeOs(registry)
         intr["os"] = fos
         extra = dict(extra or {})
